@@ -53,7 +53,7 @@ theorem groupRulesFrom_exact (cfg : Cfg) (env : Env) (call : String → Mark →
               | other => other) := by
           have hmatch : (groupJump cfg k p.chain).matches env pkt m = true := by
             unfold groupJump Rule.matches
-            split <;> simp [Clause.matches, xorb, hbeq]
+            split <;> simp [Clause.matches, xorb, hm]
           have hact : (groupJump cfg k p.chain).action = .jump p.chain := rfl
           rw [runRules, if_pos hmatch, hact]
           simp only [resolveAction]
@@ -67,26 +67,26 @@ theorem groupRulesFrom_exact (cfg : Cfg) (env : Env) (call : String → Mark →
         · simp only [hk, and_self, if_true, List.cons_append, List.nil_append, ne_eq, not_false_eq_true]
           rw [runRules]
           have : (returnOnVerdict cfg).matches env pkt m = false := by
-            simp [returnOnVerdict, Rule.matches, Clause.matches, xorb, hbeq]
+            simp [returnOnVerdict, Rule.matches, Clause.matches, xorb, hm]
           rw [if_neg (by simp [this])]
           exact hjump
         · simp only [hk, if_false, List.nil_append, List.cons_append]
           exact hjump
       · -- a verdict bit is already set: nothing more is evaluated
         have hk0 : k ≠ 0 := fun hk => hm (h0 hk)
-        have hbeq : (m &&& (cfg.markPass ||| cfg.markAccept) == 0) = false := by simp [hm]
+        have hbeq : (m &&& (cfg.markPass ||| cfg.markAccept) == 0) = false := by simpa using hm
         simp only [hm, ne_eq, not_false_eq_true, if_true]
         by_cases hk : k % 5 = 0
         · simp only [hk0, hk, ne_eq, not_false_eq_true, and_self, if_true, List.cons_append, List.nil_append]
           rw [runRules]
           have : (returnOnVerdict cfg).matches env pkt m = true := by
-            simp [returnOnVerdict, Rule.matches, Clause.matches, xorb, hbeq]
+            simpa [returnOnVerdict, Rule.matches, Clause.matches, xorb] using hm
           rw [if_pos this]
           simp [returnOnVerdict, resolveAction]
         · simp only [hk, and_false, if_false, List.nil_append, List.cons_append]
           rw [runRules]
           have : (groupJump cfg k p.chain).matches env pkt m = false := by
-            simp [groupJump, hk, Rule.matches, Clause.matches, xorb, hbeq]
+            simpa [groupJump, hk, Rule.matches, Clause.matches, xorb] using hm
           rw [if_neg (by simp [this])]
           rw [ih (k + 1) m (by omega)]
           exact seqEval_of_verdict cfg call ps m hm
@@ -112,6 +112,193 @@ theorem seqEval_ignores_staged (cfg : Cfg) (call : String → Mark → Result) (
       split
       · rfl
       · cases call p.chain m <;> simp [ih]
+
+/-- reference behaviour of the profile section: profiles in order; the first one that returns with
+the accept bit set wins, a terminating profile rule terminates, and if none accepts the packet
+is denied. -/
+def profSeq (cfg : Cfg) (call : String → Mark → Result) : List String → Mark → Result
+  | [], m => .verdict (if cfg.reject then .reject else .drop) m
+  | p :: ps, m =>
+    match call p m with
+    | .returned m' => if m' &&& cfg.markAccept == cfg.markAccept then .returned m' else profSeq cfg call ps m'
+    | other => other
+
+/-- **The profile section of the endpoint chain is exact for any number of profiles**: anything
+no profile accepts is denied (fail closed). -/
+theorem profile_section_exact (cfg : Cfg) (e : EpCfg) (env : Env) (call : String → Mark → Result)
+    (pkt : Packet) (profiles : List String) (m : Mark) :
+    runRules env call pkt (profileRules cfg e profiles) m = profSeq cfg call profiles m := by
+  induction profiles generalizing m with
+  | nil =>
+    cases hf : cfg.flowLogs <;> cases hr : cfg.reject <;>
+      simp [profileRules, profSeq, runRules, Rule.matches, resolveAction, applyMark, hf, hr, C08.denyAction]
+  | cons p ps ih =>
+    have hcons : profileRules cfg e (p :: ps) =
+        ({ action := .jump p } : Netfilter.Rule) ::
+        { clauses := [.mark false cfg.markAccept cfg.markAccept], action := .ret,
+          comments := ["Return if profile accepted"] } :: profileRules cfg e ps := by
+      simp [profileRules]
+    rw [hcons, runRules]
+    simp only [Rule.matches, List.all_nil, if_true, resolveAction, profSeq]
+    cases hc : call p m with
+    | returned m' =>
+      simp only
+      rw [runRules]
+      by_cases ha : (m' &&& cfg.markAccept == cfg.markAccept) = true
+      · simp [Rule.matches, Clause.matches, xorb, ha, resolveAction]
+      · have ha' : (m' &&& cfg.markAccept == cfg.markAccept) = false := by simpa using ha
+        simp only [Rule.matches, List.all_cons, List.all_nil, Clause.matches, xorb, ha',
+          Bool.false_eq_true, if_false, Bool.and_true]
+        exact ih m'
+    | verdict v mk => rfl
+    | missing c => rfl
+    | outOfFuel => rfl
+
+/-! ### one tier of the endpoint chain -/
+
+/-- the (jump target, group has enforced policies) pairs of a tier, in rendering order -/
+def tierTargets (t : Tier) : List (String × Bool) :=
+  t.groups.flatMap fun g => g.jumpTargets.map fun c => (c, g.hasNonStaged)
+
+def targetRules (cfg : Cfg) (e : EpCfg) (th : String × Bool) : List Netfilter.Rule :=
+  [({ clauses := [.mark false 0 cfg.markPass], action := .jump th.1 } : Netfilter.Rule)]
+  ++ (if th.2 then
+        (if e.chainType = .untracked then
+          [({ clauses := [.mark false cfg.markAccept cfg.markAccept], action := .notrack } : Netfilter.Rule)] else [])
+        ++ [{ clauses := [.mark false cfg.markAccept cfg.markAccept], action := .ret,
+              comments := ["Return if policy accepted"] }]
+      else [])
+
+theorem groups_flatMap_eq (cfg : Cfg) (e : EpCfg) (t : Tier) :
+    t.groups.flatMap (groupEpRules cfg e) = (tierTargets t).flatMap (targetRules cfg e) := by
+  unfold tierTargets
+  induction t.groups with
+  | nil => rfl
+  | cons g gs ih =>
+    simp only [List.flatMap_cons, List.flatMap_append, ih]
+    congr 1
+    simp only [groupEpRules, List.flatMap_map, targetRules]
+
+/-- reference behaviour of the policy jumps of a tier: each policy (or group) chain is entered only
+while the pass bit is clear; after a group with enforced policies an accept bit returns. -/
+def targetsSeq (cfg : Cfg) (call : String → Mark → Result) (cont : Mark → Result) :
+    List (String × Bool) → Mark → Result
+  | [], m => cont m
+  | th :: ts, m =>
+    match (if m &&& cfg.markPass == 0 then call th.1 m else .returned m) with
+    | .returned m' =>
+      if th.2 && (m' &&& cfg.markAccept == cfg.markAccept) then .returned m'
+      else targetsSeq cfg call cont ts m'
+    | other => other
+
+theorem targets_exact (cfg : Cfg) (e : EpCfg) (env : Env) (call : String → Mark → Result) (pkt : Packet)
+    (rest : List Netfilter.Rule) (ts : List (String × Bool)) (m : Mark) :
+    runRules env call pkt (ts.flatMap (targetRules cfg e) ++ rest) m =
+      targetsSeq cfg call (fun m' => runRules env call pkt rest m') ts m := by
+  induction ts generalizing m with
+  | nil => simp [targetsSeq]
+  | cons th ts ih =>
+    obtain ⟨c, hns⟩ := th
+    simp only [List.flatMap_cons, targetRules, List.append_assoc, List.cons_append, List.nil_append, targetsSeq]
+    rw [runRules]
+    simp only [Rule.matches, List.all_cons, List.all_nil, Clause.matches, xorb, Bool.and_true,
+      Bool.false_eq_true, if_false, resolveAction]
+    -- after the (possibly skipped) jump we are at the return rule(s) with some mark m'
+    have hret : ∀ m', runRules env call pkt
+        ((if hns = true then
+            (if e.chainType = .untracked then
+              [({ clauses := [.mark false cfg.markAccept cfg.markAccept], action := .notrack } : Netfilter.Rule)] else [])
+            ++ [{ clauses := [.mark false cfg.markAccept cfg.markAccept], action := .ret,
+                  comments := ["Return if policy accepted"] }]
+          else []) ++ (ts.flatMap (targetRules cfg e) ++ rest)) m' =
+        if hns && (m' &&& cfg.markAccept == cfg.markAccept) then .returned m'
+        else targetsSeq cfg call (fun m' => runRules env call pkt rest m') ts m' := by
+      intro m'
+      cases hns
+      · simp [ih]
+      · by_cases ha : (m' &&& cfg.markAccept == cfg.markAccept) = true
+        · by_cases hu : e.chainType = .untracked <;>
+            simp [hu, runRules, Rule.matches, Clause.matches, xorb, ha, resolveAction, applyMark]
+        · have ha' : (m' &&& cfg.markAccept == cfg.markAccept) = false := by simpa using ha
+          by_cases hu : e.chainType = .untracked <;>
+            simp [hu, runRules, Rule.matches, Clause.matches, xorb, ha', ih]
+    by_cases hp : (m &&& cfg.markPass == 0) = true
+    · simp only [hp, if_true]
+      cases hc : call c m with
+      | returned m' => simp only; exact hret m'
+      | verdict v mk => rfl
+      | missing c' => rfl
+      | outOfFuel => rfl
+    · have hp' : (m &&& cfg.markPass == 0) = false := by simpa using hp
+      simp only [hp', Bool.false_eq_true, if_false]
+      exact hret m
+
+/-- what happens at the end of a tier -/
+def endOfTier (cfg : Cfg) (e : EpCfg) (t : Tier) (next : Mark → Result) (m : Mark) : Result :=
+  if (e.chainType = .normal ∨ e.chainType = .forward) ∧ t.groups.any (·.hasNonStaged) = true ∧ ¬ t.defaultPass
+      ∧ (m &&& cfg.markPass == 0) = true
+  then .verdict (if cfg.reject then .reject else .drop) m
+  else next m
+
+/-- **One tier of the endpoint chain is exact** (any number of groups and policies, any chain
+type, flow logs on or off): the pass bit is cleared, the policy / group chains are entered in
+order while no policy has passed, an accept returns, and at the end a tier that holds an enforced
+policy and whose default action is not Pass denies the packet unless a policy passed it —
+otherwise evaluation continues with the next tier / the profiles (`rest`). A tier without
+policies renders nothing. -/
+theorem tier_rules_exact (cfg : Cfg) (e : EpCfg) (env : Env) (call : String → Mark → Result) (pkt : Packet)
+    (t : Tier) (rest : List Netfilter.Rule) (m : Mark) :
+    runRules env call pkt (tierRules cfg e t ++ rest) m =
+      if t.groups.isEmpty then runRules env call pkt rest m
+      else targetsSeq cfg call (endOfTier cfg e t (fun m' => runRules env call pkt rest m'))
+        (tierTargets t) (m &&& ~~~ cfg.markPass) := by
+  unfold tierRules
+  by_cases hg : t.groups.isEmpty = true
+  · simp [hg]
+  · have hg' : t.groups.isEmpty = false := by simpa using hg
+    simp only [hg', Bool.false_eq_true, if_false, List.append_assoc, List.cons_append, List.nil_append]
+    rw [runRules]
+    simp only [Rule.matches, List.all_nil, if_true, resolveAction, applyMark]
+    rw [groups_flatMap_eq, targets_exact]
+    congr 1
+    funext m'
+    unfold endOfTier
+    by_cases hct : e.chainType = .normal ∨ e.chainType = .forward
+    · cases hany : t.groups.any (fun g => g.hasNonStaged) <;> cases hdp : t.defaultPass <;>
+        cases hf : cfg.flowLogs <;> cases hr : cfg.reject <;>
+        by_cases hp : (m' &&& cfg.markPass == 0) = true <;>
+        simp [hct, hp, runRules, Rule.matches, Clause.matches, xorb, resolveAction,
+          applyMark, C08.denyAction, hr]
+    · simp [hct]
+
+/-- reference behaviour of the whole tier loop -/
+def tiersSeq (cfg : Cfg) (e : EpCfg) (call : String → Mark → Result) (final : Mark → Result) :
+    List Tier → Mark → Result
+  | [], m => final m
+  | t :: ts, m =>
+    if t.groups.isEmpty then tiersSeq cfg e call final ts m
+    else targetsSeq cfg call (endOfTier cfg e t (tiersSeq cfg e call final ts)) (tierTargets t)
+      (m &&& ~~~ cfg.markPass)
+
+/-- **The tier loop of the endpoint chain is exact for any number of tiers, groups and policies**:
+tiers are evaluated in order; within a tier see `tier_rules_exact`; after the last tier the
+profile section / end of chain (`rest`) follows. -/
+theorem tiers_exact (cfg : Cfg) (e : EpCfg) (env : Env) (call : String → Mark → Result) (pkt : Packet)
+    (tiers : List Tier) (rest : List Netfilter.Rule) (m : Mark) :
+    runRules env call pkt (tiers.flatMap (tierRules cfg e) ++ rest) m =
+      tiersSeq cfg e call (fun m' => runRules env call pkt rest m') tiers m := by
+  induction tiers generalizing m with
+  | nil => simp [tiersSeq]
+  | cons t ts ih =>
+    simp only [List.flatMap_cons, List.append_assoc, tiersSeq]
+    rw [tier_rules_exact]
+    have : (fun m' => runRules env call pkt (ts.flatMap (tierRules cfg e) ++ rest) m') =
+        tiersSeq cfg e call (fun m' => runRules env call pkt rest m') ts := by
+      funext m'; exact ih m'
+    rw [this]
+    split
+    · exact ih m
+    · rfl
 
 /-- non-vacuity: a 7-policy group (two staged) crosses the return stride -/
 example : (groupRulesFrom {} 0 ((List.range 7).map fun i => { chain := s!"p{i}", staged := i = 2 ∨ i = 3 })).length = 5 := by
